@@ -28,7 +28,11 @@ def get_root(app, request=None):
     def closer():
         ctx.end()
 
-    root = app.root_factory(request)
+    try:
+        root = app.root_factory(request)
+    except BaseException:
+        ctx.end()
+        raise
     return root, closer
 
 
@@ -97,19 +101,23 @@ def prepare(request=None, registry=None):
     request.registry = registry
     ctx = RequestContext(request)
     ctx.begin()
-    apply_request_extensions(request)
 
     def closer():
         if request.finished_callbacks:
             request._process_finished_callbacks()
         ctx.end()
 
-    root_factory = registry.queryUtility(
-        IRootFactory, default=DefaultRootFactory
-    )
-    root = root_factory(request)
-    if getattr(request, 'context', None) is None:
-        request.context = root
+    try:
+        apply_request_extensions(request)
+        root_factory = registry.queryUtility(
+            IRootFactory, default=DefaultRootFactory
+        )
+        root = root_factory(request)
+        if getattr(request, 'context', None) is None:
+            request.context = root
+    except BaseException:
+        ctx.end()
+        raise
     return AppEnvironment(
         root=root,
         closer=closer,
